@@ -14,7 +14,7 @@ CHECKS = {
        "exactly that argument with no operator recognised inside it; every behaviour is a replay case: the real line_to_cmds + "
        "CommandLine::from_line must plan exactly those argv in-process, every kind of mismatch and a sample of matches is run "
        "through the real binary with an argv-dumping helper, and only process-level mismatches are violations. TLC-simulated "
-       "argument lists (0..6 arguments up to length 8) extend the bound.",
+       "argument lists (0..6 arguments up to length 8) extend the bound. In addition parse_line itself is transcribed statement by statement (spec/Tokenizer.tla): every string over a 14-symbol alphabet up to length 4 (thorough 5) must be tokenized by the real code exactly as by the transcription (conformance drift is reported), and TLC lists where the transcription and the reference reader disagree.",
   design_ref="DESIGN.md 3.1, 6 (C01)",
   note="Trusted: TLC, the reference reader as the meaning of the three quoting styles, helper vpa; in-process plan = what the binary "
        "executes (sampled at process level). Known findings (backslash style only) are listed in known_findings.json.",
@@ -27,7 +27,7 @@ CHECKS = {
        "recorded with state-based observations (tcgetpgrp, /proc state and process group of every helper, the shell's blocking "
        "system call, the parsed jobs listing and notifications) and validated by TLC against spec/TraceSession.tla: every logged "
        "action is a JobControl action, unseen shell steps are bounded silent steps, and the statements of C07 are evaluated on "
-       "every observation.",
+       "every observation. spec/Launch.tla models how a pipeline gets its process group and the terminal (fork, setpgid in parent and child, tcsetpgrp) in every interleaving; the pinned child-only variant is the negative control, and the sessions draw a schedule-point profile (hook delay points around fork / setpgid) so the race windows are explored on the real binary.",
   design_ref="DESIGN.md 3.8, 6 (C07)",
   note="Trusted: TLC, the pty driver's quiescence detection (/proc/<pid>/syscall + stat, several consecutive looks), helper vjob. "
        "A session that does not settle is dropped (tool level), a session the model cannot explain without any C07 statement "
@@ -56,7 +56,7 @@ CHECKS = {
        "kinds incl. builtin / not-found / early exit, payload 0 B..200 kB, last-stage exit code or signal, every finishing-order "
        "permutation); each runs on the real binary with the vst stage helper under a watchdog and is judged by bytes + checksum "
        "received by the last stage, start counts, exit status and live processes when the shell returns; a sample runs under "
-       "strace and is validated against the kernel descriptor model.",
+       "strace and is validated against the kernel descriptor model. The model also covers a stage that writes to standard error, the capture pipes read sequentially (core.rs as pinned: TLC finds the deadlock, negative control) or together, and the here-string pipe with SIGPIPE at its default disposition (pinned: the shell dies, negative control) or ignored; here-string scenarios (reader consumes / exits without reading, text below / above one pipe buffer) run on the binary.",
   design_ref="DESIGN.md 3.6, 6 (C02)",
   note="Trusted: TLC, the vst helper, finishing order forced by per-stage linger; hangs are judged by a 60 s watchdog.",
   technique="TLA+ pipeline model checked by TLC (safety + liveness); TLC-enumerated scenarios replayed on the binary; strace traces validated by TLC"),
@@ -82,7 +82,7 @@ CHECKS = {
        "{-}, $} under 40 environments (values with $B, $A, ${B}, self and mutual references, regex-special text, blanks, $1) that "
        "the loop ends with exactly the reference result, makes progress in every round and terminates (liveness); every (word, "
        "environment) is replayed on the real binary unquoted, double-quoted and single-quoted under a watchdog (hangs re-run with "
-       "a 10x budget) and judged by the argv the helper received.",
+       "a 10x budget) and judged by the argv the helper received. A sample of the cases is also run with the environment rebuilt inside the line (stale shell-local value, then export of the current value).",
   design_ref="DESIGN.md 3.2, 6 (C10)",
   note="Trusted: TLC, helper vpa; variables are exported through the process environment; unquoted values with blanks may arrive "
        "split or unsplit.",
@@ -96,7 +96,7 @@ CHECKS = {
        "blanks, newlines; thorough: more) and two substitutions per word; TLC checks the trimming theorems; each case runs on the "
        "real binary with a helper that prints the programmed bytes and logs each run, under a watchdog (hangs re-run with a 10x "
        "budget); oracle: argv / stdin received by the outer command, run counters, diagnostic for inner commands that cannot "
-       "run, and that the following command still runs.",
+       "run, and that the following command still runs. Volume variants (inner command writes more than one pipe buffer to stdout, to stderr, to both) bind the capture branch of spec/Pipeline.tla to the binary.",
   design_ref="DESIGN.md 3.2, 6 (C11)",
   note="Trusted: TLC, helpers vout / vpa / vio; unquoted results with blanks may arrive split or unsplit.",
   technique="TLA+ reference of substitution values enumerated by TLC; every case replayed on the binary with run counters"),
@@ -188,7 +188,7 @@ CHECKS = {
        "client records the rows after every operation, and TLC validates every recorded history against spec/TraceHistory.tla: "
        "each operation must transform the table as the model prescribes (exactly one appended row with the text unchanged, no "
        "change on list / search, exactly the named rows removed), listings of a fresh process must show every row in order, "
-       "searches must succeed and contain every literal match.",
+       "searches must succeed and contain every literal match. Every sequence of 4 typed lines over {line, line with a leading blank, another line} is run exhaustively (skip rules).",
   design_ref="DESIGN.md 3.11, 6 (C18)",
   note="Trusted: TLC, Python's sqlite3 as independent reader, the pty driver; HISTORY_DELETE_DUPS=0 (documented start-up "
        "de-duplication switched off); % and _ are wildcards in searches.",
